@@ -117,6 +117,9 @@ def analyse(cases, want_model=True):
         sp = a.model.get("spec", "")
         if sp.startswith("ok "):
             a.wspec = sp[3:].split(" ## ")[0]
+            # hypotheses of Spec.specAuto_correct on this grammar (construction finished, no empty alternative)
+            flags = sp[3:].split(" ## ")[4].split() if len(sp[3:].split(" ## ")) > 4 else []
+            a.spec_scope = dict(f.split("=") for f in flags)
             reqs.append(f"equiv {a.wraw} {a.wspec}"); plan.append((a, "spec:raw", None))
             if a.wmin is not None:
                 reqs.append(f"equiv {a.wmin} {a.wspec}"); plan.append((a, "spec:min", None))
